@@ -656,3 +656,52 @@ func HostArgsProbe() (problem string) {
 	}
 	return ""
 }
+
+// ColdStartProbe: VMs that use, at the same time and for the FIRST time in the process, library
+// facilities with process-wide state (time zones, error values, formatting) - whatever the library caches
+// lazily must be filled under a lock.  Meant to run first in a new process under the race detector; the
+// results are also compared with what each VM gets alone afterwards.
+func ColdStartProbe(vms int) *Diff {
+	zones := []string{"Europe/Berlin", "Asia/Tokyo", "America/New_York", "Africa/Cairo", "Australia/Sydney", "Asia/Kolkata", "America/Sao_Paulo", "Pacific/Auckland",
+		"Europe/London", "Asia/Shanghai", "America/Chicago", "Africa/Lagos", "Europe/Moscow", "Asia/Dubai", "America/Denver", "Pacific/Honolulu"}
+	c := &Case{Family: "cold-start", Builtin: true, Src: `param (n, s)
+time := import("time")
+strings := import("strings")
+zones := ` + fmt.Sprintf("%q", zones) + `
+out := []
+for r := 0; r < 2; r++ {
+	loc := time.LoadLocation(zones[(n + r * 8) % len(zones)])
+	t := time.Date(2020, 2, 29, 12, 0, 0, 0, loc)
+	out = append(out, string(loc), time.Format(t, "2006-01-02 15:04 MST"), sprintf("%05d|%-4s|%x", n, s, n * 255))
+}
+try { x := n / (n - n) } catch e { out = append(out, string(e)) }
+out = append(out, strings.Title(s), strings.Repeat(s, 2))
+return out
+`}
+	src := strings.Replace(c.Src, "[\"", "[\"", 1)
+	src = strings.ReplaceAll(src, "\" \"", "\", \"") // %q of a []string prints no commas
+	c.Src = src
+	bc, _, err := c.CompileAny()
+	if err != nil {
+		return &Diff{Family: c.Family, Src: c.Src, Solo: "compile", Conc: err.Error()}
+	}
+	res := make([]string, vms)
+	var wg sync.WaitGroup
+	start := make(chan struct{})
+	for i := 0; i < vms; i++ {
+		wg.Add(1)
+		go func(i int) {
+			defer wg.Done()
+			<-start
+			res[i] = RunOne(bc, false, i)
+		}(i)
+	}
+	close(start)
+	wg.Wait()
+	for i := 0; i < vms; i++ {
+		if solo := RunOne(bc, false, i); solo != res[i] {
+			return &Diff{Family: c.Family, Src: c.Src, ID: i, Solo: solo, Conc: res[i]}
+		}
+	}
+	return nil
+}
